@@ -373,6 +373,7 @@ type line struct {
 	Src   string  `json:"src,omitempty"`
 	Shape *shape  `json:"shape,omitempty"`
 	N     uint64  `json:"n"`
+	Start uint64  `json:"start,omitempty"` // setmax-in-builtin: the limit set before the run; jump (re-used thread): Steps before the run
 	K     int     `json:"k,omitempty"`
 	Ops   []op    `json:"ops,omitempty"`
 	Other bool    `json:"other,omitempty"`
@@ -799,7 +800,7 @@ func main() {
 						viol = fmt.Sprintf("limit set to %d by built-in call %d is not reached (program needs %d): result %s at step %d", newLimit, k, s.T, o.Res, o.Steps)
 					}
 					oo := o
-					hx.Emit(line{Kind: "setmax-in-builtin", Prog: p.Name, N: newLimit, K: k, Ops: h.plan[k], Obs: &oo, Viol: viol})
+					hx.Emit(line{Kind: "setmax-in-builtin", Prog: p.Name, N: newLimit, Start: start, K: k, Ops: h.plan[k], Obs: &oo, Viol: viol})
 				}
 			}
 		}
@@ -807,6 +808,8 @@ func main() {
 	// jump: the step counter gets past the limit without landing on it -- a built-in charges steps by adding to
 	// thread.Steps, or a re-used thread is given a limit below what it has already counted -- with the default
 	// behaviour and with an OnMaxSteps hook that cancels
+	const chargeSrc = "b()\nx = 1\nb()\ny = [b() for _ in range(3)]\nb()\n"
+	chargeShape, _ := measure(prog{"charge", chargeSrc, false}, 1000) // the profile of the program below, for the Coq side
 	for _, hook := range []bool{false, true} {
 		for _, charge := range []uint64{1, 7, 1000} {
 			for _, limit := range []uint64{5, 6, 9, 40} {
@@ -831,7 +834,8 @@ func main() {
 					}
 					return starlark.None, nil
 				})}
-				src := "b()\nx = 1\nb()\ny = [b() for _ in range(3)]\nb()\n"
+				src := chargeSrc
+				csh := chargeShape
 				_, err := starlark.ExecFileOptions(opts, th, "p.star", src, pre)
 				res, reason := classify(err)
 				viol := ""
@@ -844,7 +848,7 @@ func main() {
 				if !jumped && th.Steps >= limit && res != "cancelled" {
 					viol = fmt.Sprintf("limit %d, steps %d, result %s", limit, th.Steps, res)
 				}
-				hx.Emit(line{Kind: "jump", Prog: "charge", N: limit, K: int(charge), Hook: hook, Src: src + "# b() adds K to thread.Steps on its first call", Obs: &obs{Res: res, Reason: reason, Steps: th.Steps, NLog: calls}, Viol: viol})
+				hx.Emit(line{Kind: "jump", Prog: "charge", Shape: &csh, N: limit, K: int(charge), Hook: hook, Src: src + "# b() adds K to thread.Steps on its first call", Obs: &obs{Res: res, Reason: reason, Steps: th.Steps, NLog: calls}, Viol: viol})
 			}
 		}
 		// a re-used thread: it counts T steps without a limit, then gets a limit below T
@@ -870,7 +874,7 @@ func main() {
 					viol = fmt.Sprintf("thread that has counted %d steps, limit then set to %d: result %s/%d, %d built-in calls", st, lim, o.Res, o.Reason, o.NLog)
 				}
 				oo := o
-				hx.Emit(line{Kind: "jump", Prog: p.Name, N: lim, Hook: hook, Obs: &oo, Viol: viol})
+				hx.Emit(line{Kind: "jump", Prog: p.Name, N: lim, Start: st, Hook: hook, Obs: &oo, Viol: viol})
 				st = th.ExecutionSteps()
 			}
 		}
